@@ -283,12 +283,32 @@ def run(chk, which="C18"):
             entries[tag] = {"tree": ("leaf", name), "expr": name}
             stmts.append((sid, f'vfy::reify_label<{name}>("{tag}");'))
             sid += 1
-        # common units and common point units
-        for j in range(4):
-            a, b = rnd.sample(["Meters", "Feet", "Inches", "Miles", "Yards"], 2)
+        # common units and common point units: library units and anonymous scalings of them (zero origins, so that the common
+        # magnitude is the base-wise GCD for points as well)
+        LEN = ["Meters", "Feet", "Inches", "Miles", "Yards"]
+        for j in range(8):
+            n_items = rnd.choice([2, 2, 3])
+            items = []
+            same_base = rnd.random() < 0.5
+            b0 = rnd.choice(LEN)
+            for _ in range(n_items):
+                b = b0 if same_base else rnd.choice(LEN)
+                k = rnd.choice([1, 2, 3, 6, 10, 4, 9, 15]) if (same_base or rnd.random() < 0.5) else 1
+                items.append((f"au::{b}" if k == 1 else f"decltype(au::{b}{{}} * au::mag<{k}>())", b, model.emul(leaves0[b][1], model.mag_of_int(k))))
+            if len({model.ekey(x[2]) for x in items}) < len(items):
+                continue
+            pt = rnd.random() < 0.5
+            tmpl = "CommonPointUnitT" if pt else "CommonUnitT"
             tag = f"l{ti}_cu{j}"
-            entries[tag] = {"common": (a, b), "expr": f"CommonUnitT<{a},{b}>"}
-            stmts.append((sid, f'vfy::reify_label<au::CommonUnitT<au::{a}, au::{b}>>("{tag}");'))
+            entries[tag] = {"common": items, "expr": f'{tmpl}<{", ".join(x[0] for x in items)}>'}
+            stmts.append((sid, f'vfy::reify_label<au::{tmpl}<{", ".join(x[0] for x in items)}>>("{tag}");'))
+            sid += 1
+        # const-qualified unit types (what decltype of a constexpr unit variable gives): same label as the unqualified type
+        for i, t in enumerate(trees[:10]):
+            tag = f"l{ti}_{i}_const"
+            expr = spell_x(t, units_x)
+            entries[tag] = {"tree": t, "expr": f"const {expr}", "const_of": f"l{ti}_{i}"}
+            stmts.append((sid, f'vfy::reify_label<const decltype({expr})>("{tag}");'))
             sid += 1
         plans.append((ti, stmts, entries, "\n".join(decls), leaves, tdinfo))
 
@@ -319,6 +339,13 @@ def run(chk, which="C18"):
             en = entries[ev["tag"]]
             n_labels += 1
             lab = ev["label"]
+            if "const_of" in en:
+                # a const-qualified unit type (decltype of a constexpr unit variable): the public function form unit_label(u),
+                # which streaming uses, must give the unit's label (the UnitLabel<> trait is not asked about cv-qualified types)
+                base = next((e2["label"] for e2 in events if e2.get("ev") == "label" and e2.get("tag") == en["const_of"]), None)
+                if base is not None and base != ev["via_unit_label_fn"]:
+                    chk.violation(f'C18|const_qualified|expr={en["expr"][:200]}', msg=f'unit_label() of the const-qualified type gives "{ev["via_unit_label_fn"]}", the unit itself "{base}" ({en["expr"][:200]})')
+                continue
             distinct.add(lab)
             key = f'expr={en["expr"][:200]}'
             if ev["sizeof"] != ev["strlen"] + 1 or not ev["nul"]:
@@ -326,12 +353,22 @@ def run(chk, which="C18"):
             if ev["via_unit_label_fn"] != lab:
                 chk.violation(f"C18|fn_vs_trait|{key}", msg=f'unit_label(U{{}}) "{ev["via_unit_label_fn"]}" differs from unit_label<U>() "{lab}"')
             if "common" in en:
-                a, b = en["common"]
-                want = model.emul(leaves[a][1], {})  # judged semantically below through EQUIV members
-                atoms = {label_of[a]: [leaves[a]], label_of[b]: [leaves[b]]}
+                items = en["common"]
+                from .c07 import gcd_mag
+                want_m = gcd_mag([x[2] for x in items])
+                want_d = leaves[items[0][1]][0]
+                atoms = {}
+                for x in items:
+                    atoms.setdefault(label_of[x[1]], []).append(leaves[x[1]])
                 rs = readings(lab, atoms, {})
-                if not rs or any(d == "MISMATCH" for d, m in rs):
-                    chk.violation(f"C18|common_label|{key}", msg=f'label of CommonUnitT<{a},{b}> "{lab}" does not read as EQUIV{{...}} of equal units')
+                good = [1 for d, m in rs if d not in (None, "MISMATCH") and model.ekey(d) == model.ekey(want_d) and m is not None and model.ekey(m) == model.ekey(want_m)]
+                if not good:
+                    chk.violation(f"C18|common_label|{key}", msg=f'label "{lab}" of {en["expr"][:200]} does not read as the common unit (each EQUIV member must denote it): readings {[(model.ekey(d) if isinstance(d, dict) else d, model.ekey(m) if isinstance(m, dict) else m) for d, m in rs][:2]}')
+                if lab.startswith("EQUIV{") and lab.endswith("}"):
+                    mem = lab[6:-1].split(", ")
+                    if len(set(mem)) != len(mem) or len(mem) < 2:
+                        chk.violation(f"C18|common_label_duplicates|{key}", msg=f'label "{lab}" of {en["expr"][:200]} lists the same constituent more than once (or only one)')
+                judged += 1
                 continue
             tree = en["tree"]
             e = model.ev(tree, leaves)
@@ -458,6 +495,9 @@ def run_itoa_and_stream(chk, tier):
             L.append(f'  st("{rep}", (au::meters / au::second)(({rep}){lit}), (long double)(({rep}){lit}));')
             L.append(f'  st("pt:{rep}", au::meters_pt(({rep}){lit}), (long double)(({rep}){lit}));')
             ns += 3
+    # const-qualified unit types (decltype of a constexpr unit variable) must stream exactly like the unit
+    L.append('  { constexpr auto mps = au::Meters{} / au::Seconds{}; st("int", au::make_quantity<decltype(mps)>(65), 65.0L); st("double", au::make_quantity<const decltype(au::Meters{} / au::Seconds{})>(2.5), 2.5L); st("int", au::make_quantity<const au::Meters>(65), 65.0L); }')
+    ns += 3
     L += ['  printf("{\\"ev\\":\\"done\\"}\\n");', "}"]
     d = core.subdir("c18i")
     src = core.write(os.path.join(d, "itoa.cc"), "\n".join(L))
